@@ -123,14 +123,14 @@ def make_virtual(world, names, virt, as_factor=False):
     return out
 
 
-def posterior_problems(names, ref, res, q, ev, virt, joint, what):
+def posterior_problems(names, ref, res, q, ev, virt, joint, what, tol=None):
     """Compare a query result with the oracle.  Returns a list of (clause, signature, detail)."""
     out = []
     try:
         if joint:
             lv, arr = factor_to_logical(res, names, expect_vars=q)
             want = ref.posterior(lv, ev, virt)
-            if not close(arr, want):
+            if not close(arr, want, **(tol or {})):
                 out.append(("value", f"{PROP}:value:{what}", {"got": arr.round(9).tolist(), "want": want.round(9).tolist(), "maxdiff": maxdiff(arr, want)}))
         else:
             if not isinstance(res, dict):
@@ -146,7 +146,7 @@ def posterior_problems(names, ref, res, q, ev, virt, joint, what):
                 v = names.lab2idx[k]
                 lv, arr = factor_to_logical(phi, names, expect_vars=[v])
                 want = ref.posterior([v], ev, virt)
-                if not close(arr, want):
+                if not close(arr, want, **(tol or {})):
                     out.append(("value", f"{PROP}:value:{what}", {"var": v, "got": arr.round(9).tolist(), "want": want.round(9).tolist()}))
     except Mismatch as e:
         out.append(("labels", f"{PROP}:labels:{what}", str(e)))
@@ -174,6 +174,12 @@ def check_posterior(ctx, names, ref, res, q, ev, virt, joint, what, ref32=None):
     if probs and ref32 is not None and all(c == "value" for c, _, _ in probs):
         virt32 = [(v, [through_float32(x) for x in l]) for v, l in virt]
         if not posterior_problems(names, ref32, res, q, ev, virt32, joint, what):
+            ctx.fail("value", TORCH32_SIG, probs[0][2])
+            return False
+        # the rounding happens at EVERY factor / CPD construction inside the library (pruned CPDs, virtual-evidence nodes ...),
+        # so the rounded-input reference is not always matched exactly: deviations within single precision of the true
+        # answer are attributed to the same finding, anything larger is a violation
+        if not posterior_problems(names, ref, res, q, ev, virt, joint, what, tol={"atol": 5e-7, "rtol": 1e-5}):
             ctx.fail("value", TORCH32_SIG, probs[0][2])
             return False
     for c, sg, d in probs:
@@ -265,7 +271,7 @@ def execute(case, ctx):
             want = ref.prob_evidence(st)
             ctx.checked += 1
             if not close(p, want):
-                if ref32 is not None and close(p, ref32.prob_evidence(st)):
+                if ref32 is not None and (close(p, ref32.prob_evidence(st)) or close(p, want, atol=5e-7, rtol=1e-5)):
                     ctx.fail("value", TORCH32_SIG, {"got": p, "want": want, "api": "get_state_probability"})
                 else:
                     ctx.fail("value", f"{PROP}:value:state_prob", {"got": p, "want": want})
@@ -300,7 +306,7 @@ def execute(case, ctx):
                             break
                         got = float(out[col].iloc[ri])
                         if not close(got, want[s]):
-                            if ref32 is not None and close(got, ref32.posterior([v], ev)[s]):
+                            if ref32 is not None and (close(got, ref32.posterior([v], ev)[s]) or close(got, want[s], atol=5e-7, rtol=1e-5)):
                                 ctx.fail("value", TORCH32_SIG, {"col": col, "row": r, "got": got, "want": float(want[s]), "api": "predict_probability"})
                             else:
                                 ctx.fail("value", f"{PROP}:value:predict_proba", {"col": col, "row": r, "got": got, "want": float(want[s])})
